@@ -14,7 +14,7 @@ func main() {
 	silent := flag.Bool("s", false, "silent")
 	tz := flag.Bool("tz", false, "WithTZ")
 	zone := flag.String("zone", "", "zone")
-	vars := flag.String("vars", `{"v":1,"w":"ab","arr":[1,2,{"a":3}],"obj":{"a":1,"b":[1,2]},"nul":null}`, "vars")
+	vars := flag.String("vars", `{"v":1,"w":"ab","arr":[1,2,{"a":3}],"sarr":["ab","b",1],"obj":{"a":1,"b":[1,2]},"nul":null}`, "vars")
 	flag.Parse()
 	h.InstallHooks()
 	p, err, pan := h.ParseSafe(flag.Arg(0))
